@@ -10,6 +10,8 @@ import (
 
 	jschema "github.com/jsightapi/jsight-schema-go-library"
 	"github.com/jsightapi/jsight-schema-go-library/formats/json"
+	"github.com/jsightapi/jsight-schema-go-library/fs"
+	"github.com/jsightapi/jsight-schema-go-library/kit"
 	njs "github.com/jsightapi/jsight-schema-go-library/notations/jschema"
 	"github.com/jsightapi/jsight-schema-go-library/notations/regex"
 	"github.com/jsightapi/jsight-schema-go-library/rules/enum"
@@ -40,6 +42,8 @@ type Spec struct {
 	// FullReg: every JSight type is also added to every other JSight type (the way an API
 	// document registers its types), not only to the root.
 	FullReg bool `json:"types_added_to_every_type,omitempty"`
+	// UnnamedFiles: the type schemas are created with an empty file name (jschema.New("", text)).
+	UnnamedFiles bool `json:"type_files_unnamed,omitempty"`
 }
 
 // Obs is what one call returned.
@@ -51,6 +55,8 @@ type Obs struct {
 	ErrType string // dynamic type of the error
 	Msg     string
 	Err     error
+	// Kit: "" when kit.ConvertError agrees with the error's own code and position
+	Kit string
 }
 
 // Verdict renders the comparable part of an observation.
@@ -98,6 +104,7 @@ func Observe(err error) Obs {
 	if stderrors.As(err, &p) {
 		o.Pos = int(p.Position())
 	}
+	o.Kit = kitDisagreement(err, o)
 	var m interface{ Message() string }
 	if stderrors.As(err, &m) {
 		o.Msg = safeString(m.Message)
@@ -105,6 +112,36 @@ func Observe(err error) Obs {
 		o.Msg = safeString(err.Error)
 	}
 	return o
+}
+
+// kitDisagreement: kit.ConvertError (the SDK's view of an error) must keep the code and the
+// position the error itself exposes. "" when it does (or when the error exposes neither).
+func kitDisagreement(err error, o Obs) (d string) {
+	defer func() {
+		if r := recover(); r != nil {
+			d = fmt.Sprintf("kit.ConvertError panicked: %v", r)
+		}
+	}()
+	// only errors that are library errors THEMSELVES are judged: an error that merely wraps one
+	// (AddType: "load added type: %w") is converted as a generic error, which no statement forbids
+	direct, isDirect := err.(interface {
+		ErrCode() int
+		Position() uint
+	})
+	k := kit.ConvertError(fs.NewFile("kit", ""), err)
+	if k == nil {
+		return "kit.ConvertError returned nil for a non-nil error"
+	}
+	if !isDirect {
+		return ""
+	}
+	if k.ErrCode() != direct.ErrCode() {
+		return fmt.Sprintf("kit.ConvertError reports code %d, the error itself %d", k.ErrCode(), direct.ErrCode())
+	}
+	if k.Position() != direct.Position() {
+		return fmt.Sprintf("kit.ConvertError reports position %d, the error itself %d", k.Position(), direct.Position())
+	}
+	return ""
 }
 
 func safeString(f func() string) (s string) {
@@ -165,7 +202,11 @@ func Build(sp Spec) (s *njs.Schema, o Obs) {
 			if sp.OptKeys {
 				topts = append(topts, njs.KeysAreOptionalByDefault())
 			}
-			tj := njs.New(t.Name, t.Text, topts...)
+			fname := t.Name
+			if sp.UnnamedFiles {
+				fname = ""
+			}
+			tj := njs.New(fname, t.Text, topts...)
 			rules := t.Rules
 			if rules == nil {
 				rules = sp.Rules
